@@ -160,17 +160,23 @@ def gen_block_tree(rng, sizes, cplx, depth):
 # recipe -> scico object
 
 
-def build_op(op, n, cplx):
+def dtype_of(cplx, single=False):
+    if single:
+        return np.complex64 if cplx else np.float32
+    return np.complex128 if cplx else np.float64
+
+
+def build_op(op, n, cplx, single=False):
     import scico.numpy as snp
     from scico import linop
 
-    dt = np.complex128 if cplx else np.float64
+    dt = dtype_of(cplx, single)
     if op["kind"] == "none":
         return None
     if op["kind"] == "diag":
-        return linop.Diagonal(snp.array(dec(op["d"], (n,), cplx)), input_dtype=dt)
+        return linop.Diagonal(snp.array(np.asarray(dec(op["d"], (n,), cplx), dtype=dt)), input_dtype=dt)
     M = dec(op["M"], (op["m"], n), cplx)
-    return linop.MatrixOperator(snp.array(M), input_cols=0)
+    return linop.MatrixOperator(snp.array(np.asarray(M, dtype=dt)), input_cols=0)
 
 
 def op_matrix(op, n):
@@ -181,12 +187,13 @@ def op_matrix(op, n):
     return dec(op["M"], (op["m"], n))
 
 
-def build(t, n, cplx):
+def build(t, n, cplx, single=False):
     """recipe -> scico Functional (using the operators `*`, `/`, `+` where the recipe says so)"""
     import scico.numpy as snp
     from scico import functional, linop, loss
 
-    dt = np.complex128 if cplx else np.float64
+    dt = dtype_of(cplx, single)
+    rdt = np.float32 if single else np.float64
     k = t["k"]
     if k == "zero":
         return functional.ZeroFunctional()
@@ -203,26 +210,26 @@ def build(t, n, cplx):
     if k == "l21":
         return functional.L21Norm(l2_axis=t["axis"])
     if k == "mul":
-        f = build(t["f"], n, cplx)
+        f = build(t["f"], n, cplx, single)
         return t["c"] * f if t["side"] == "l" else f * t["c"]
     if k == "div":
-        return build(t["f"], n, cplx) / t["c"]
+        return build(t["f"], n, cplx, single) / t["c"]
     if k == "add":
-        return build(t["f"], n, cplx) + build(t["g"], n, cplx)
+        return build(t["f"], n, cplx, single) + build(t["g"], n, cplx, single)
     if k == "sepN":
-        return functional.SeparableFunctional([build(f, m, cplx) for f, m in zip(t["fs"], t["sizes"])])
+        return functional.SeparableFunctional([build(f, m, cplx, single) for f, m in zip(t["fs"], t["sizes"])])
     if k in ("loss", "sqL2Loss", "sqL2SqAbsLoss"):
         op = t["op"]
         m = op["m"]
-        A = build_op(op, n, cplx)
+        A = build_op(op, n, cplx, single)
         if k == "loss":
-            y = snp.array(dec(t["y"], (m,), cplx))
-            return loss.Loss(y=y, A=A, f=build(t["f"], m, cplx), scale=t["s"])
-        W = None if t.get("w") is None else linop.Diagonal(snp.array(np.array(t["w"], dtype=np.float64)), input_dtype=dt)
+            y = snp.array(np.asarray(dec(t["y"], (m,), cplx), dtype=dt))
+            return loss.Loss(y=y, A=A, f=build(t["f"], m, cplx, single), scale=t["s"])
+        W = None if t.get("w") is None else linop.Diagonal(snp.array(np.array(t["w"], dtype=rdt)), input_dtype=dt)
         if k == "sqL2Loss":
-            y = snp.array(dec(t["y"], (m,), cplx))
+            y = snp.array(np.asarray(dec(t["y"], (m,), cplx), dtype=dt))
             return loss.SquaredL2Loss(y=y, A=A, scale=t["s"], W=W)
-        y = snp.array(np.array(t["y"], dtype=np.float64))
+        y = snp.array(np.array(t["y"], dtype=rdt))
         if A is None:
             A = linop.Identity((n,), input_dtype=dt)
         return loss.SquaredL2SquaredAbsLoss(y=y, A=A, scale=t["s"], W=W)
@@ -289,7 +296,7 @@ def margin(t, x):
         if t["sep"]:
             return inf, (float(np.min(np.abs(np.abs(x) - t["delta"]))) if x.size else inf)
         nx = float(np.linalg.norm(x))
-        return nx, abs(nx - t["delta"])
+        return inf, abs(nx - t["delta"])
     if k == "l1ml2":
         return (float(np.min(np.abs(x))) if x.size else inf), inf
     if k == "l21":
